@@ -60,12 +60,12 @@ PROPS["C04"] = {
     "harnesses": [
         H("h_c04_step", {"CALLS": 1}, {"CALLS": 2},
           shards={"quick": C04_SHARDS, "thorough": C04_SHARDS},
-          budget=(900, 480), partial=("thorough",)),
+          budget=(900, 300), partial=("thorough",)),
     ],
     "panic_ok": ["h_c04_step"],
     "bounds": {"quick": "7 start forests (5-8 nodes, all text-like contents symbolic) plus forest 0 with adjacent text nodes (consolidation switched off and on again), 1 call drawn from 34 operations with "
                         "every tuple of live nodes as arguments",
-               "thorough": "same forests, sequences of 2 calls: each of the 77 shards explores 2-call sequences for 480 s in a "
+               "thorough": "same forests, sequences of 2 calls: each of the 112 shards explores 2-call sequences for 300 s in a "
                     "VERIF_SEED-dependent order (the space is not exhausted; evidence lists the shards as partial)"},
     "outside": "histories longer than 2 calls; forests other than the catalogue; parsing as a history step",
     "assumptions": [],
@@ -295,14 +295,14 @@ PROPS["C14"] = {
              "for all contents incl. ']' / '>' runs); indentation only adds whitespace-only text nodes and none inside mixed "
              "content, xml:space=preserve scope or suppressed elements",
     "harnesses": [
-        H("h_c14_cdata", {"N": 2}, {"N": 3, "SYMU": 1}, shards={"quick": shard_product(("len", 2), ("cdata", 3)), "thorough": shard_product(("len", 3), ("cdata", 3))}),
+        H("h_c14_cdata", {"N": 2}, {"N": 3, "SYMU": 0}, shards={"quick": shard_product(("len", 2), ("cdata", 3)), "thorough": shard_product(("len", 3), ("cdata", 3))}),
         H("h_c14_gt", {"N": 2}, {"N": 4}, shards={"quick": shard_product(("len", 2), ("decl", 3)), "thorough": shard_product(("len", 4), ("decl", 3))}),
         H("h_c14_pretty", {"SYMT": 0}, {"SYMT": 1}, shards={"quick": shard_product(("xs_a", 3), ("xs_b", 3), ("mixed", 4)), "thorough": shard_product(("xs_a", 3), ("xs_b", 3), ("mixed", 4))}),
     ],
     "bounds": {"quick": "CDATA: text of <=2 symbolic chars (+ ']]>' in a child) under 3 CDATA-element sets x unescaped_gt; unescaped_gt: "
                         "<=2 symbolic chars x 3 declaration settings; indentation: a 5-element tree with xml:space none/preserve/"
                         "default on 3 levels, a text child at 4 positions, 3 suppress lists, document and element",
-               "thorough": "CDATA <=3 (+1 symbolic in the child), unescaped_gt <=4, symbolic text child in the indentation tree"},
+               "thorough": "CDATA <=3, unescaped_gt <=4, symbolic text child in the indentation tree"},
     "outside": "doctype output; normalizers; longer runs of ']' and '>' than the bound",
     "assumptions": [],
 }
